@@ -239,7 +239,8 @@ class TermBuilder:
                 if kind == "global":
                     mod, nm = fq.rsplit(".", 1)
                     st = self.ana.prog.modules[mod].globals.get(nm)
-                    if isinstance(st, ast.Assign) and isinstance(st.value, ast.Constant):
+                    if isinstance(st, ast.Assign) and isinstance(st.value, ast.Constant) \
+                            and self.ana.prog.modules[mod].global_assign_count.get(nm, 0) == 1:
                         return tm.as_term(st.value.value) if not isinstance(st.value.value, float) else tm.const(Fraction(repr(st.value.value)))
                 return Sym(fq)
             return Sym(name)
@@ -684,8 +685,9 @@ class TermBuilder:
             if kind == "global":
                 mod, nm = fq.rsplit(".", 1)
                 st = self.ana.prog.modules.get(mod)
+                once = st.global_assign_count.get(nm, 0) == 1 if st else False
                 st = st.globals.get(nm) if st else None
-                if isinstance(st, ast.Assign) and isinstance(st.value, ast.Constant) and not isinstance(st.value.value, str):
+                if once and isinstance(st, ast.Assign) and isinstance(st.value, ast.Constant) and not isinstance(st.value.value, str):
                     return self._t_Constant(st.value, at)
             return Sym(fq)
         base = self.term(e.value, at)
@@ -817,6 +819,14 @@ class TermBuilder:
         c = self.ana.res.callee(self.fi, e)
         args = [self.term(a, at) for a in e.args]
         kw = {k.arg: self.term(k.value, at) for k in e.keywords if k.arg is not None}
+        if any(isinstance(a, ast.Starred) for a in e.args) or any(k.arg is None for k in e.keywords):
+            # argument packs cannot be bound statically: keep the call uninterpreted
+            args = args + [App("**", (self.term(k.value, at),)) for k in e.keywords if k.arg is None]
+            name = c.func.qualname if c.func is not None else (c.cls.qualname if c.cls is not None and c.kind == "ctor" else
+                                                               ("." + str(c.target) if c.kind == "method_unknown" else str(c.target)))
+            if c.kind == "method_unknown":
+                args = [self.term(c.receiver, at)] + args
+            return App(name, args, kw)
         if c.kind in ("internal",) and c.func is not None:
             if self._inlinable(c.func):
                 try:
